@@ -44,6 +44,9 @@ type CLIOpt struct {
 
 var defaultEnv = []string{"PATH=/usr/bin:/bin", "HOME=/nonexistent", "LANG=C", "NO_COLOR="}
 
+// DefaultEnv is the environment a command gets when CLIOpt.Env is nil.
+func DefaultEnv() []string { return defaultEnv[:3] }
+
 // CLI runs bin/gojq.
 func CLI(o CLIOpt) CLIResult {
 	to := o.Timeout
